@@ -22,6 +22,7 @@ from translate import t_c09
 FIELDS = ['x', 'y', 'z']
 DKEYS = ['a', 'b', 'c', 'd']
 MISSING = {'missing': True}
+NEG_DEL_OK = [True]      # fixes/C09-F110.patch: `del l[-1]` reports the position (before: the key path [-1])
 _CLS = {}
 LOG = []
 OBJ_IDS = {}
@@ -124,7 +125,10 @@ def mirror(t, step):
     for v in c['vs']:
       node['items'].append([len(node['items']), v])
   elif n == 'rebind':
-    for p, v in c['pairs']:
+    pairs = c['pairs']
+    if node['k'] == 'list':       # List._sym_rebind applies the pairs in descending path order
+      pairs = sorted(pairs, key=lambda pv: key_cmp_tuple(pv[0]), reverse=True)
+    for p, v in pairs:
       mirror_write(get_at(node, p[:-1]), p[-1], v)
   elif n == 'update':
     for k, v in c['kvs']:
@@ -134,8 +138,98 @@ def mirror(t, step):
   elif n == 'reverse':
     vals = [v for _, v in node['items']][::-1]
     node['items'] = [[i, v] for i, v in enumerate(vals)]
+  elif n == 'sort':
+    vals = sorted(v for _, v in node['items']) if len(node['items']) > 1 else [v for _, v in node['items']]
+    node['items'] = [[i, v] for i, v in enumerate(vals)]
   elif n == 'popitem':
     node['items'] = node['items'][:-1]
+  elif n in LIST_EDITS:
+    r = list_edit([v for _, v in node['items']], c)
+    if r is not None:
+      node['items'] = [[i, v] for i, v in enumerate(r[0])]
+
+
+def list_edit(vals, c, is_node=None):
+  """Python list semantics of the position-shifting calls on plain values. -> (new values,
+  [(position, old, new)] as the contract wants them reported), or None when the call raises.
+  MISSING stands for "no value"."""
+  is_node = is_node or globals()['is_node']
+  def same_atom(a, b):
+    """`old is new` for the atoms the generator uses (None, small ints, interned 1-char strs)."""
+    return not is_node(a) and not is_node(b) and a == b and type(a) == type(b)
+  n = c['name']
+  vals = list(vals)
+  L = len(vals)
+  if n == 'insert':
+    i = c['i']
+    p = max(0, i + L) if i < 0 else min(i, L)
+    return vals[:p] + [c['v']] + vals[p:], [(p, MISSING, c['v'])]
+  if n == 'delidx':
+    i = c['i']
+    if i < -L or i >= L:
+      return None
+    j = i + L if i < 0 else i
+    return vals[:j] + vals[j + 1:], [(j, vals[j], MISSING)]
+  if n == 'remove':
+    for j, x in enumerate(vals):
+      if not is_node(x) and x == c['atom'] and type(x) == type(c['atom']):
+        return vals[:j] + vals[j + 1:], [(j, x, MISSING)]
+    return None
+  if n == 'delslice':
+    if c.get('step') == 0:
+      return None
+    ps = list(range(*slice(c.get('a'), c.get('b'), c.get('step')).indices(L)))
+    return [x for j, x in enumerate(vals) if j not in ps], [(p_, vals[p_], MISSING) for p_ in sorted(ps, reverse=True)]
+  if n == 'setslice':
+    if c.get('step') == 0:
+      return None
+    start, stop, step = slice(c.get('a'), c.get('b'), c.get('step')).indices(L)
+    vs = c['vs']
+    if step == 1:
+      size = max(0, stop - start)
+      ents = []
+      for i in range(max(size, len(vs))):
+        if i < size and i < len(vs):
+          if not same_atom(vals[start + i], vs[i]):
+            ents.append((start + i, vals[start + i], vs[i]))
+        elif i < len(vs):
+          ents.append((start + i, MISSING, vs[i]))
+        else:
+          ents.append((start + i, vals[start + i], MISSING))
+      return vals[:start] + vs + vals[start + size:], ents
+    ps = list(range(start, stop, step))
+    if len(ps) != len(vs):
+      return None
+    out = list(vals)
+    ents = []
+    for p_, v in sorted(zip(ps, vs), key=lambda e: e[0]):
+      if not same_atom(vals[p_], v):
+        ents.append((p_, vals[p_], v))
+      out[p_] = v
+    return out, ents
+  if n == 'clear' or (n == 'imul' and c['k'] <= 0):
+    return [], [(i, x, MISSING) for i, x in enumerate(vals)]
+  if n in ('reverse', 'sort'):
+    if n == 'reverse':
+      new = vals[::-1]
+      src = lambda i: L - 1 - i
+    else:
+      if L > 1 and not all(isinstance(x, int) and not isinstance(x, bool) for x in vals):
+        return None
+      if L <= 1:
+        return list(vals), []
+      new = sorted(vals)
+      src = lambda i: -1
+    return new, [(i, vals[i], new[i]) for i in range(L) if not (src(i) == i or same_atom(vals[i], new[i]))]
+  if n == 'imul':
+    k = c['k']
+    copies = [x for _ in range(k - 1) for x in vals]
+    return vals + copies, [(L + i, MISSING, x) for i, x in enumerate(copies)]
+  raise AssertionError(n)
+
+
+LIST_EDITS = ('insert', 'delidx', 'remove', 'delslice', 'setslice', 'imul')
+LIST_MOVES = ('reverse', 'sort')
 
 
 def key_cmp_tuple(path):
@@ -278,10 +372,28 @@ def do_call(node, c):
     node.rebind({pg.KeyPath(list(p)): plain(v) for p, v in c['pairs']})
   elif n == 'update':
     node.update({k: plain(v) for k, v in c['kvs']})
+  elif n == 'insert':
+    node.insert(c['i'], plain(c['v']))
+  elif n == 'delidx':
+    if c.get('via') == 'pop':
+      node.pop(c['i'])
+    else:
+      del node[c['i']]
+  elif n == 'remove':
+    node.remove(c['atom'])
+  elif n == 'setslice':
+    node[c.get('a'):c.get('b'):c.get('step')] = [plain(v) for v in c['vs']]
+  elif n == 'delslice':
+    del node[c.get('a'):c.get('b'):c.get('step')]
+  elif n == 'imul':
+    import operator
+    operator.imul(node, c['k'])
   elif n == 'clear':
     node.clear()
   elif n == 'reverse':
     node.reverse()
+  elif n == 'sort':
+    node.sort()
   elif n == 'popitem':
     node.popitem()
   else:
@@ -341,6 +453,18 @@ class Gen:
       return v
     return 100
 
+  def slice_value(self, node, c, i):
+    """A value for position i of a slice assignment: never a str equal to the one it replaces."""
+    vals = [v for _, v in node['items']]
+    try:
+      ps = list(range(*slice(c['a'], c['b'], c['step']).indices(len(vals))))
+    except ValueError:
+      ps = []
+    if c['step'] not in (None, 1):
+      ps = sorted(ps) if c['step'] and c['step'] > 0 else ps
+    old = vals[ps[i]] if i < len(ps) else None
+    return self.value(old if isinstance(old, str) else None)
+
   def fresh_tree(self, depth):
     r = self.r
     kind = r.choice(['dict', 'list'])
@@ -372,8 +496,36 @@ class Gen:
     if kind == 'dict':
       choices += [(2, 'delkey'), (2, 'update'), (1, 'clear'), (1, 'popitem')]
     if kind == 'list':
-      choices += [(2, 'append'), (3, 'extend'), (1, 'clear'), (1, 'reverse')]
+      choices += [(2, 'append'), (3, 'extend'), (1, 'clear'), (2, 'reverse'), (1, 'sort'), (2, 'insert'), (2, 'delidx'),
+                  (1, 'remove'), (3, 'setslice'), (2, 'delslice'), (1, 'imul')]
     name = r.weighted(choices)
+    n = len(node['items'])
+    if name == 'insert':
+      return {'name': 'insert', 'i': r.randint(-n - 2, n + 2), 'v': self.value()}
+    if name == 'delidx':
+      via = r.choice(['del', 'pop'])
+      i = r.randint(0 if via == 'del' and not NEG_DEL_OK[0] else -n, n - 1) if n and r.chance(0.9) else r.choice([n, -n - 1])
+      return {'name': 'delidx', 'via': via, 'i': i}
+    if name == 'remove':
+      atoms = [x for _, x in node['items'] if not is_node(x)]
+      return {'name': 'remove', 'atom': r.choice(atoms) if atoms and r.chance(0.8) else r.choice([77, 'zz'])}
+    if name in ('setslice', 'delslice'):
+      def bound():
+        return None if r.chance(0.25) else r.randint(-n - 2, n + 2)
+      step = r.choice([None, 1, 1, 2, -1, -2, 3, 0] if r.chance(0.5) else [None, 1])
+      c = {'name': name, 'a': bound(), 'b': bound(), 'step': step}
+      if name == 'setslice':
+        size = len(range(*slice(c['a'], c['b'], step).indices(n))) if step != 0 else 0
+        k = r.below(4)
+        if step not in (None, 1, 0) and r.chance(0.85):
+          k = size                                   # an extended slice needs exactly as many values
+        c['vs'] = [self.slice_value(node, c, i) for i in range(k)]
+      return c
+    if name == 'imul':
+      k = r.choice([0, 1, 2, 3, -1])
+      if k >= 2 and any(is_node(x) for _, x in node['items']):
+        k = r.choice([0, 1])                         # replication clones symbolic children (C07)
+      return {'name': 'imul', 'k': k}
     if name == 'setkey':
       k, old = self.target(node)
       if k is None:
@@ -391,9 +543,14 @@ class Gen:
       return {'name': 'update', 'kvs': [[k, self.value(get_at(node, [k]))] for k in ks]}
     if name == 'popitem' and not node['items']:
       name = 'clear'
-    if name == 'reverse' and any(is_node(c) for _, c in node['items']):
-      name = 'clear'            # reversing symbolic children leaves stale paths (F02, property C01)
-    if name in ('clear', 'reverse', 'popitem'):
+    if name == 'reverse':
+      strs = [c for _, c in node['items'] if isinstance(c, str)]
+      if len(set(strs)) != len(strs):
+        name = 'clear'            # identity of equal strings at mirrored positions is an implementation detail
+    if name == 'sort' and len(node['items']) > 1 and not all(
+        isinstance(c, int) and not isinstance(c, bool) for _, c in node['items']):
+      name = 'reverse' if not any(isinstance(c, str) for _, c in node['items']) else 'clear'
+    if name in ('clear', 'reverse', 'popitem', 'sort'):
       return {'name': name}
     # rebind: 1-4 pairs below the receiver, on pairwise unrelated locations
     parents = all_nodes(node)
@@ -428,6 +585,11 @@ class Gen:
       nodes = all_nodes(shadow)
       path, node = r.choice(nodes) if r.chance(0.7) else max(nodes, key=lambda pn: len(pn[0]))
       step = {'recv': path, 'notify': r.chance(0.85), 'call': self.call(shadow, path, node)}
+      c = step['call']
+      if c['name'] == 'setslice' and c.get('step') in (None, 1):
+        size = len(range(*slice(c['a'], c['b'], 1).indices(len(node['items']))))
+        if len(c['vs']) < size:
+          step['notify'] = True        # notify-off + shrinking slice leaves MISSING placeholders (C02-F03)
       steps.append(step)
       mirror(shadow, json.loads(json.dumps(step)))
     return {'tree': t, 'steps': steps}
@@ -446,6 +608,16 @@ def _diff(pre, post, path=()):
       out += _diff(a[kk][1] if kk in a else MISSING, b[kk][1] if kk in b else MISSING, path + (k,))
     return out
   return [(list(path), pre, post)]
+
+
+CLEAR_NOTIFIES = [True]       # fixes/C09-F55.patch: clear / popitem / sort / reverse report what they removed / moved
+
+
+def canon_json(t):
+  """Case-JSON value -> the canonical form `canon` gives to real values."""
+  if not is_node(t):
+    return t
+  return [t['k'], [[k, canon_json(c)] for k, c in t['items']]]
 
 
 def canon_at(c, path):
@@ -467,8 +639,9 @@ class C09(Prop):
   driver = 'drv_c09'
   translators = [t_c09.run]
   case_timeout_s = 20
-  rule = ('histories of 1-5 calls (accessor writes, del, append, batched rebind with 1-4 unrelated paths, '
-          'Dict.update, clear/reverse/popitem) on trees of depth <= 3 mixing pg.Dict / pg.List with or without '
+  rule = ('histories of 1-5 calls (accessor writes, del, append, extend / +=, batched rebind with 1-4 unrelated paths, '
+          'Dict.update, clear / reverse / sort / popitem, and the position-shifting list calls insert, del l[i] / pop, '
+          'remove, slice assignment and del slice with any start / stop / step, *=) on trees of depth <= 3 mixing pg.Dict / pg.List with or without '
           'onchange_callback and pg.Object classes with and without an overridden _on_change; 15 % of the '
           'calls inside notify_on_change(False); every derived fact of every node is read after every call. '
           'A second, oracle-only stream inserts partial objects, pure-symbolic and non-deterministic values. '
@@ -479,7 +652,13 @@ class C09(Prop):
       'modelled, not verified: grouping / ordering / cache reset of _notify_field_updates, the write primitive and '
       'the cache-consulting recomputation of sym_nondefault (tied by correspondence); the three memoised facts are '
       'one cache in the model; notify_parents=False, handlers that mutate during notification, _on_parent_change / '
-      '_on_path_change, list insert/delete (re-indexing, C01/C02) and value specs are outside the model',
+      '_on_path_change and value specs are outside the model; a shrinking slice assignment inside '
+      'notify_on_change(False) leaves MISSING_VALUE placeholders (known finding C02-F03) and is neither generated '
+      'nor modelled',
+      'THE MODEL MIRRORS THE TREE WITH fixes/C09-F55.patch (clear / popitem / sort / reverse report what they removed '
+      '/ moved) AND fixes/C09-F110.patch (del l[-1] reports the position) APPLIED',
+      'position-shifting list calls: the contract is read on the edit (removed item -> MISSING at its former position, '
+      'MISSING -> inserted item at its new position, old -> new for replaced items)',
   ]
   assumptions = ['believed parent chain = real ancestor chain (C01) for the trees the generator builds',
                  'only fresh plain values are inserted (no relocation / cloning of existing nodes)']
@@ -678,13 +857,14 @@ class C09(Prop):
         return {'signature': 'event-while-silent:' + name,
                 'what': 'events %s delivered although notification is disabled / skipped / the call failed' % events[:2]}
       return None
-    if name in ('clear', 'reverse', 'popitem'):
+    if name in ('clear', 'reverse', 'popitem', 'sort'):
       changed = _diff(o['pre'], o['value'])
       subs = self.subscribing_ancestors(tree, step['recv'])
       if changed and subs and not events:
         return {'signature': 'no-event:' + name,
                 'what': '%s changed %s but no event reached the subscribing nodes %s' % (name, changed[:2], subs)}
-      return None
+      if not CLEAR_NOTIFIES[0]:
+        return None
     ids = [e['recv'] for e in events]
     if len(set(ids)) != len(ids):
       return {'signature': 'duplicate-event', 'what': 'a receiver got more than one event: %s' % ids}
@@ -692,6 +872,9 @@ class C09(Prop):
     for e in events:
       if e['recv'] not in sub_nodes:
         return {'signature': 'event-to-stranger', 'what': 'receiver %s is not a subscribing node of the tree' % e['recv']}
+    if name in LIST_EDITS or name in LIST_MOVES or (name == 'clear' and get_at(tree, step['recv'])['k'] == 'list'):
+      f = self.oracle_list_edit(tree, step, o, events, sub_nodes)
+      return f or self.oracle_order(events, sub_nodes)
     # payload: true old / new values at the reported locations
     reported = {}
     for e in events:
@@ -707,7 +890,7 @@ class C09(Prop):
       reported[e['recv']] = locs
     # exactly the affected subscribing ancestors, each with exactly the changed locations below it
     changed = [c[0] for c in _diff(o['pre'], o['value'])]
-    written = self.written_locations(tree, step)
+    written = self.written_locations(tree, step, o)
     for nid, rp in sub_nodes.items():
       below = [l for l in written if l[:len(rp)] == rp and len(l) > len(rp) and self.really_written(o, l)]
       got = reported.get(nid)
@@ -720,6 +903,9 @@ class C09(Prop):
     for c in changed:
       if not any(c[:len(w)] == w for w in written):
         return {'signature': 'unreported-change', 'what': 'location %s changed but was not written by the call' % c}
+    return self.oracle_order(events, sub_nodes)
+
+  def oracle_order(self, events, sub_nodes):
     # order: a receiver after all receivers below it
     pos = {e['recv']: i for i, e in enumerate(events)}
     for a in pos:
@@ -730,12 +916,56 @@ class C09(Prop):
                   'what': 'node %s (at %s) was notified before its descendant %s (at %s)' % (a, pa, b, pb)}
     return None
 
+  def oracle_list_edit(self, tree, step, o, events, sub_nodes):
+    """Position-shifting list calls: the contract is read on the *edit*: every subscribing
+    ancestor-or-self of the list gets one event with exactly the removed items (item -> MISSING, at the
+    position the item had before the call), the inserted items (MISSING -> item, at the position it has
+    after the insertion) and the replaced items (old -> new), relative to the receiver."""
+    c = step['call']
+    recv = step['recv']
+    pre_list = canon_at(o['pre'], recv)
+    vals = [v for _, v in pre_list[1]]              # canonical forms of the real values before the call
+    c = dict(c)
+    if 'v' in c:
+      c['v'] = canon_json(c['v'])
+    if 'vs' in c:
+      c['vs'] = [canon_json(x) for x in c['vs']]
+    r = list_edit(vals, c, is_node=lambda x: isinstance(x, list))
+    if r is None:
+      return None                       # the call raises on a plain list as well (C02's business)
+    newvals, ents = r
+    post = canon_at(o['value'], recv)
+    want_post = ['list', [[i, v] for i, v in enumerate(newvals)]]
+    if post != want_post:
+      return {'signature': 'list-edit-result:' + c['name'],
+              'what': '%s left %s, list semantics give %s' % (json.dumps(c)[:150], json.dumps(post)[:200], json.dumps(want_post)[:200])}
+    want = [[[pos_], old, new] for pos_, old, new in ents]
+    got = {e['recv']: e['entries'] for e in events}
+    for nid, rp in sub_nodes.items():
+      on_path = rp == recv[:len(rp)]
+      mine = got.get(nid)
+      if not on_path or not want:
+        if mine is not None:
+          return {'signature': 'event-to-bystander', 'what': 'node %s at %s got %s for %s at %s' % (
+              nid, rp, mine[:2], c['name'], recv)}
+        continue
+      if mine is None:
+        return {'signature': 'missing-event', 'what': 'subscribing node %s at %s got no event for %s at %s' % (
+            nid, rp, c['name'], recv)}
+      rel = recv[len(rp):]
+      exp = sorted(json.dumps([rel + p_, a, b]) for p_, a, b in want)
+      if sorted(json.dumps(x) for x in mine) != exp:
+        return {'signature': 'wrong-payload',
+                'what': '%s at %s: node %s at %s was told %s, the edit is %s' % (
+                    json.dumps(c)[:120], recv, nid, rp, json.dumps(mine)[:300], exp[:6])}
+    return None
+
   def really_written(self, o, loc):
     """A write of an identical atom (`old is new`) produces no update."""
     old, new = canon_at(o['pre'], loc), canon_at(o['value'], loc)
     return not (old == new and not isinstance(new, list))
 
-  def written_locations(self, tree, step):
+  def written_locations(self, tree, step, o=None):
     c = step['call']
     r = step['recv']
     if c['name'] in ('setkey', 'delkey'):
@@ -749,6 +979,11 @@ class C09(Prop):
       return [r + p for p, _ in c['pairs']]
     if c['name'] == 'update':
       return [r + [k] for k, _ in c['kvs']]
+    if c['name'] == 'clear':
+      return [r + [k] for k, _ in get_at(tree, r)['items']]
+    if c['name'] == 'popitem':
+      items = canon_at(o['pre'], r)[1] if o is not None else get_at(tree, r)['items']
+      return [r + [items[-1][0]]] if items else []
     return []
 
   def subscribing_ancestors(self, tree, path):
@@ -778,6 +1013,10 @@ class C09(Prop):
         h.append('stale-after:' + s['call']['name'])
       if s['call']['name'] == 'rebind':
         h.append('rebind-pairs:%d' % len(s['call']['pairs']))
+      if s['call']['name'] in ('setslice', 'delslice'):
+        h.append('slice-step:%s' % s['call'].get('step'))
+      if s['call']['name'] == 'delidx':
+        h.append('delidx-via:' + s['call'].get('via', 'del'))
       h.append('recv-depth:%d' % len(s['recv']))
     if not self.nontrivial(case, out):
       h.append('trivial(no subscriber on the path)')
